@@ -2,6 +2,7 @@ import Lean.Data.Json
 import Mp.EvalS
 import Mp.Analysis
 import Mp.Cue
+import Mp.CueFunc
 /-! Line-protocol handlers of the model driver (core-only: links as an executable). -/
 open Lean
 namespace Mp
@@ -118,6 +119,19 @@ def handleCue (line : String) : String :=
     let cp := (j.getObjValAs? String "cp").toOption.getD ""
     let pos := (j.getObjValAs? String "pos").toOption.getD ""
     if pos != "" then "UNMODELLED" else      -- only key-only paths are modelled; other query shapes are checked by the Go oracle
+    let calls : List (String × Nat) := match j.getObjVal? "calls" with
+      | .ok (.arr a) => a.toList.map fun c => ((c.getObjValAs? String "n").toOption.getD "", (c.getObjValAs? Nat "k").toOption.getD 0)
+      | _ => []
+    if !calls.isEmpty then
+      match validate root p cp, findValueAtPath root p with
+      | .acc t io, some last =>
+        (match validateCalls last calls (t, io) false with
+         | some (t', io') => s!"ACC {t'} {io'}"
+         | none => "REJ other")
+      | .acc _ _, none => "REJ other"
+      | .rej c, _ => s!"REJ {c}"
+      | .err, _ => "ERR"
+    else
     match validate root p cp with
     | .acc t io => s!"ACC {t} {io}"
     | .rej c => s!"REJ {c}"
